@@ -115,7 +115,15 @@ func c13History(c *rt.Ctx, o *rt.Obs) {
 				return
 			}
 		}
-		for ci, commit := range m.Order {
+		order := append([]ksuid.KSUID(nil), m.Order...)
+		if step%2 == 1 {
+			// cold handle: newest commit first, so that older commits are served by a
+			// process that has already derived newer snapshots from their persisted ones
+			for i, j := 0, len(order)-1; i < j; i, j = i+1, j-1 {
+				order[i], order[j] = order[j], order[i]
+			}
+		}
+		for ci, commit := range order {
 			want := gen.RecsOf(m.Values(commit))
 			got, err := h.Query(ctx, fmt.Sprintf("from %s@%s", m.Spec.Name, commit))
 			o.Count("commit_requeries", 1)
